@@ -1,0 +1,75 @@
+//go:build verif
+
+package blob
+
+// Contracts for the deductive verifier in /verif (govc). Comments only; build tag "verif".
+
+// Assumed contracts on dependencies (definitions read from nmt v0.24.x proof.go; predicates of
+// celestia-app pkg/proof and go-square merkle/inclusion are uninterpreted).
+//@ extern (github.com/celestiaorg/nmt.Proof).Start
+//@   ensures result == proof.start
+//@ extern (github.com/celestiaorg/nmt.Proof).End
+//@   ensures result == proof.end
+//@ extern (github.com/celestiaorg/nmt.Proof).Nodes
+//@   ensures result == proof.nodes
+//@ extern (github.com/celestiaorg/nmt.Proof).LeafHash
+//@   ensures result == proof.leafHash
+
+//@ pure func merkleRootOf(items [][]byte) []byte
+//@ extern github.com/celestiaorg/go-square/merkle.HashFromByteSlices
+//@   ensures result == merkleRootOf(items)
+//@ pure func rowProofValidated(rp proof.RowProof, root []byte) bool
+//@ extern (github.com/celestiaorg/celestia-app/v9/pkg/proof.RowProof).Validate
+//@   ensures err == nil ==> rowProofValidated(rp, root)
+//@ pure func rowProofVerified(rp proof.RowProof, root []byte) bool
+//@ extern (github.com/celestiaorg/celestia-app/v9/pkg/proof.RowProof).VerifyProof
+//@   ensures result <==> rowProofVerified(rp, root)
+//@ pure func subtreeIncl(p nmt.Proof, subtreeRoots [][]byte, width int, root []byte) bool
+//@ pure func subtreeVerifiedAgainst(p nmt.Proof, width int, root []byte) bool
+//@ extern (github.com/celestiaorg/nmt.Proof).VerifySubtreeRootInclusion
+//@   ensures result0 ==> subtreeIncl(proof, subtreeRoots, subtreeWidth, root) && subtreeVerifiedAgainst(proof, subtreeWidth, root)
+
+// ---------------------------------------------------------------------------------------------
+// C12: proof comparison. The receiver is the proof the node derived itself (well formed); the
+// argument comes from the client.
+
+//@ func (Proof).Len
+//@   property C12
+//@   ensures result == len(p)
+
+//@ func (Proof).equal
+//@   property C12
+//@   nopanic
+//@   ensures err == nil ==> len(p) == len(input)
+//@   ensures err == nil ==> forall i int :: 0 <= i && i < len(p) ==> p[i] != nil && input[i] != nil
+//@   ensures err == nil ==> forall i int :: 0 <= i && i < len(p) ==> deref(p[i]).start == deref(input[i]).start && deref(p[i]).end == deref(input[i]).end
+//@   ensures err == nil ==> forall i int :: 0 <= i && i < len(p) ==> len(deref(p[i]).nodes) == len(deref(input[i]).nodes)
+//@   ensures err == nil ==> forall i int :: 0 <= i && i < len(p) ==> bytesEq(deref(p[i]).leafHash, deref(input[i]).leafHash)
+//@   loop 1: invariant -1 <= rangeindex && rangeindex < len(p) && len(p) == len(input)
+//@   loop 1: invariant forall j int :: 0 <= j && j <= rangeindex ==> p[j] != nil && input[j] != nil && deref(p[j]).start == deref(input[j]).start && deref(p[j]).end == deref(input[j]).end && len(deref(p[j]).nodes) == len(deref(input[j]).nodes) && bytesEq(deref(p[j]).leafHash, deref(input[j]).leafHash)
+//@   loop 2: invariant -1 <= rangeindex#2 && rangeindex#2 < len(pNodes) && len(pNodes) == len(inputNodes)
+
+// ---------------------------------------------------------------------------------------------
+// C12: commitment proofs (everything in the receiver comes from the client).
+
+//@ func (*CommitmentProof).Validate
+//@   property C12
+//@   nopanic
+//@   ensures err == nil ==> len(commitmentProof.SubtreeRootProofs) <= len(commitmentProof.SubtreeRoots)
+//@   ensures err == nil ==> len(commitmentProof.SubtreeRootProofs) == len(commitmentProof.RowProof.Proofs) && len(commitmentProof.RowProof.Proofs) == len(commitmentProof.RowProof.RowRoots)
+//@   ensures err == nil ==> forall i int :: 0 <= i && i < len(commitmentProof.SubtreeRootProofs) ==> commitmentProof.SubtreeRootProofs[i] != nil
+//@   loop 1: invariant -1 <= rangeindex && rangeindex < len(commitmentProof.SubtreeRootProofs)
+//@   loop 1: invariant forall j int :: 0 <= j && j <= rangeindex ==> commitmentProof.SubtreeRootProofs[j] != nil
+
+//@ func (*CommitmentProof).Verify
+//@   property C12
+//@   nopanic
+//@   ensures err == nil ==> len(dataRoot) > 0 && len(commitment) > 0
+//@   ensures err == nil ==> bytesEq(commitment, merkleRootOf(commitmentProof.SubtreeRoots))
+//@   ensures err == nil ==> rowProofValidated(commitmentProof.RowProof, dataRoot) && rowProofVerified(commitmentProof.RowProof, dataRoot)
+//@   checks err == nil ==> subtreeRootsCursor == len(commitmentProof.SubtreeRoots)
+//@   checks err == nil ==> forall j int :: 0 <= j && j < len(commitmentProof.SubtreeRootProofs) ==> subtreeVerifiedAgainst(deref(commitmentProof.SubtreeRootProofs[j]), subtreeRootsWidth, commitmentProof.RowProof.RowRoots[j])
+//@   loop 1: invariant -1 <= rangeindex && rangeindex < len(commitmentProof.SubtreeRootProofs)
+//@   loop 2: invariant -1 <= rangeindex#2 && rangeindex#2 < len(commitmentProof.SubtreeRootProofs)
+//@   loop 2: invariant 0 <= subtreeRootsCursor && subtreeRootsCursor <= len(commitmentProof.SubtreeRoots)
+//@   loop 2: invariant forall j int :: 0 <= j && j <= rangeindex#2 ==> subtreeVerifiedAgainst(deref(commitmentProof.SubtreeRootProofs[j]), subtreeRootsWidth, commitmentProof.RowProof.RowRoots[j])
